@@ -119,6 +119,7 @@ type Client struct {
 	futureStore   *future.Store
 	connectFuture *future.Future
 	tomb          tomb.Tomb
+	started       bool
 	mutex         sync.Mutex
 	finish        sync.Once
 }
@@ -234,6 +235,7 @@ func (c *Client) Connect(config *Config) (ConnectFuture, error) {
 	}
 
 	// start process routine
+	c.started = true
 	c.tomb.Go(c.processor)
 
 	// wrap future
@@ -807,9 +809,12 @@ func (c *Client) end(err error, possiblyClosed bool) error {
 	// close connection
 	err = c.cleanup(err, true, possiblyClosed)
 
-	// shutdown goroutines
-	c.tomb.Kill(nil)
-	_ = c.tomb.Wait()
+	// shutdown goroutines if they have been started, waiting on a tomb that
+	// never ran a goroutine would block forever
+	if c.started {
+		c.tomb.Kill(nil)
+		_ = c.tomb.Wait()
+	}
 
 	return err
 }
